@@ -51,6 +51,7 @@ type CSynPair struct {
 type CThes struct {
 	Keys  []string
 	Pairs map[string][]CSynPair // sorted
+	Err   string                // the thesaurus cannot be loaded (only with ExtractOpts.ThesErrOK)
 }
 
 type CVecHit struct {
@@ -85,6 +86,9 @@ type ExtractOpts struct {
 	VecFields   []string
 	VecProbes   [][]float32
 	NoVectors   bool
+	// ThesErrOK: a thesaurus that cannot be loaded is an answer, not a failure of
+	// the walk (worlds that contain a zero-length synonym, which the reader rejects)
+	ThesErrOK bool
 }
 
 func copyU64(a []uint64) []uint64 {
@@ -223,6 +227,63 @@ func extractThes(seg segment.Segment, name string) (*CThes, error) {
 	if ok, err := th.Contains([]byte("\x01no-such-key")); err != nil || ok {
 		return nil, fmt.Errorf("thesaurus %q: Contains of an absent key says %v (err %v)", name, ok, err)
 	}
+	// the same lookups again, this time handing the previous list and iterator
+	// back as preallocation, with an absent term between every two keys: the
+	// answers do not depend on what the recycled objects held before
+	var preL segment.SynonymsList
+	var preI segment.SynonymsIterator
+	lookup := func(term string) ([]CSynPair, error) {
+		sl, err := th.SynonymsList([]byte(term), nil, preL)
+		if err != nil {
+			return nil, err
+		}
+		preL = sl
+		it := sl.Iterator(preI)
+		preI = it
+		var pairs []CSynPair
+		for {
+			s, err := it.Next()
+			if err != nil {
+				return nil, err
+			}
+			if s == nil {
+				break
+			}
+			pairs = append(pairs, CSynPair{Syn: s.Term(), Doc: s.Number()})
+			if len(pairs) > 1<<20 {
+				return nil, fmt.Errorf("runaway synonyms iteration")
+			}
+		}
+		sort.Slice(pairs, func(a, b int) bool {
+			if pairs[a].Syn != pairs[b].Syn {
+				return pairs[a].Syn < pairs[b].Syn
+			}
+			return pairs[a].Doc < pairs[b].Doc
+		})
+		return pairs, nil
+	}
+	for _, k := range ct.Keys {
+		got, err := lookup(k)
+		if err != nil {
+			return nil, fmt.Errorf("thesaurus %q term %q with recycled list: %v", name, k, err)
+		}
+		want := ct.Pairs[k]
+		if len(got) != len(want) {
+			return nil, fmt.Errorf("thesaurus %q term %q: %v with a recycled list, %v with a fresh one", name, k, got, want)
+		}
+		for i := range got {
+			if got[i] != want[i] {
+				return nil, fmt.Errorf("thesaurus %q term %q: %v with a recycled list, %v with a fresh one", name, k, got, want)
+			}
+		}
+		none, err := lookup(k + "\x01absent")
+		if err != nil {
+			return nil, fmt.Errorf("thesaurus %q absent term with recycled list: %v", name, err)
+		}
+		if len(none) != 0 {
+			return nil, fmt.Errorf("thesaurus %q: an absent term looked up with a recycled list yields %v", name, none)
+		}
+	}
 	return ct, nil
 }
 
@@ -313,6 +374,10 @@ func Extract(seg segment.Segment, o *ExtractOpts) (c *Canon, err error) {
 	for _, name := range uniqSorted(append(append([]string(nil), c.Fields...), o.Thesauri...)) {
 		ct, err := extractThes(seg, name)
 		if err != nil {
+			if o.ThesErrOK && strings.HasPrefix(err.Error(), "Thesaurus(") {
+				c.Thes[name] = &CThes{Err: err.Error()}
+				continue
+			}
 			return nil, err
 		}
 		if len(ct.Keys) > 0 {
@@ -525,6 +590,9 @@ func diffThes(a, b map[string]*CThes) string {
 	}
 	for _, n := range ka {
 		ta, tb := a[n], b[n]
+		if ta.Err != tb.Err {
+			return fmt.Sprintf("thesaurus %q: load error %q vs %q", n, ta.Err, tb.Err)
+		}
 		if !eqStr(ta.Keys, tb.Keys) {
 			return fmt.Sprintf("thesaurus %q keys %q vs %q", n, ta.Keys, tb.Keys)
 		}
@@ -655,6 +723,7 @@ func (c *Canon) Digest() uint64 {
 	for _, n := range sortedKeys(c.Thes) {
 		d.s(n)
 		t := c.Thes[n]
+		d.s(t.Err)
 		for _, k := range t.Keys {
 			d.s(k)
 			for _, p := range t.Pairs[k] {
